@@ -56,9 +56,10 @@ ASSUMPTIONS = [
     'forwarded ERROR the task still counts as RUNNING (the server has no failed state)',
 ]
 BOUNDS = {
-    'quick': 'histories of 1..4 events with 1 client and 1..3 events with 2 clients; 2 employees (1 in the 1-client runs)',
-    'thorough': 'histories of 1..5 events with 1 client and 1..4 events with 2 clients (1..5 for histories whose first two '
-                'events are SUBMITs); 1-2 employees',
+    'quick': 'every well-formed history of 1..5 events with 1 client (1 employee) and of 1..4 events with 2 clients '
+             '(2 employees), followed by a fixed probe (submit / status / result / status / request) per connected client',
+    'thorough': 'every well-formed history of 1..6 events with 1 client and of 1..5 events with 2 clients (2 employees), '
+                '1..4 events with 2 clients and 1 employee; same probe',
 }
 OUTSIDE = 'longer histories; 3 clients; CONNECT / LOG / WAITING / UPDATE interleaved with requests; how the client library ' \
           'pairs replies after it survived a forwarded ERROR (Part B); propagation of failures inside the runtime (Part B)'
@@ -399,13 +400,13 @@ def _enabled(w: World, i: int, L: int, last: 'list | None', first: 'list | None'
     return acts
 
 
-def hist(n: int, x0: int, x1: int, x2: int, x3: int, x4: int) -> bool:
+def hist(n: int, x0: int, x1: int, x2: int, x3: int, x4: int, x5: int) -> bool:
     """
     post: _
     """
     rt.begin()
     sh = rt.SHARD
-    return run_history(sh['N'], sh['NC'], sh['E'], sh.get('last'), sh.get('first'), n, [x0, x1, x2, x3, x4])
+    return run_history(sh['N'], sh['NC'], sh['E'], sh.get('last'), sh.get('first'), n, [x0, x1, x2, x3, x4, x5])
 
 
 LASTS = [[k.lower(), c] for k in CLIENT_KINDS for c in CLASSES] + [['submit'], ['disconnect'], ['result'], ['error']]
@@ -428,13 +429,12 @@ def part_a(tier: str) -> list[dict]:
             obs.append({'name': name, 'func': 'hist', 'shard': sh, 'timeout': timeout})
 
     if tier == 'quick':
-        fam(4, 1, 1, 200)
-        fam(3, 2, 2, 200)
+        fam(5, 1, 1, 300)
+        fam(4, 2, 2, 300)
     else:
-        fam(5, 1, 2, 2400)
-        fam(4, 2, 2, 2400)
-        fam(3, 2, 1, 2400)
-        fam(5, 2, 2, 2400, ['SUBMIT', 'SUBMIT'])
+        fam(6, 1, 2, 2400)
+        fam(5, 2, 2, 2400)
+        fam(4, 2, 1, 2400)
     return obs
 
 
